@@ -209,7 +209,10 @@ func checkVector(base *psBase, v *psVector, line int) *disagreement {
 	}
 	out := b.Run(calls, maxops)
 	if crashOnly {
-		// C01: any normal return (result or error value) is fine
+		// C01: any normal return (result or error value) is fine, a panic is not
+		if out.Panic != nil {
+			return mk("panic", fmt.Sprintf("the library panicked: %v", out.Panic), "no panic", fmt.Sprint(out.Panic))
+		}
 		return nil
 	}
 	if v.MaxOps == 0 && psbind.ErrName(out.Err) == "budget" {
